@@ -4319,11 +4319,23 @@ let glencoe_write m =
        (VMap cinfo0)) :: []))))))
    | Err e -> Err e)
 
-(** val jbool : aval -> bool result **)
+(** val jtruthy : aval -> bool **)
 
-let jbool = function
-| VBool b -> Ok b
-| _ -> Err OtherExn
+let jtruthy = function
+| VNone -> false
+| VBool b -> b
+| VInt z0 -> negb (Z.eqb z0 Z0)
+| VFloat r ->
+  negb
+    ((||) (eqb0 r ('0'::('.'::('0'::[]))))
+      (eqb0 r ('-'::('0'::('.'::('0'::[]))))))
+| VStr s -> negb (eqb0 s [])
+| VList l -> (match l with
+              | [] -> false
+              | _ :: _ -> true)
+| VMap kv -> (match kv with
+              | [] -> false
+              | _ :: _ -> true)
 
 (** val finfo_get : aval -> aval -> char list -> aval result **)
 
@@ -4392,10 +4404,7 @@ let rec glencoe_parse_tree fuel finfo_ here parent node0 =
                                        | Ok cid ->
                                          (match finfo_get finfo_ cid
                                                   ('o'::('p'::('t'::('i'::('o'::('n'::('a'::('l'::[])))))))) with
-                                          | Ok ov ->
-                                            (match jbool ov with
-                                             | Ok b -> Some b
-                                             | Err _ -> None)
+                                          | Ok ov -> Some (jtruthy ov)
                                           | Err _ -> None)
                                        | Err _ -> None) chl
                                    in
@@ -4431,13 +4440,10 @@ let rec glencoe_parse_tree fuel finfo_ here parent node0 =
                                                   (match finfo_get finfo_ cid
                                                            ('o'::('p'::('t'::('i'::('o'::('n'::('a'::('l'::[])))))))) with
                                                    | Ok ov ->
-                                                     (match jbool ov with
-                                                      | Ok opt ->
-                                                        (match goc (S p) cs with
-                                                         | Ok rest ->
-                                                           Ok ((pc,
-                                                             opt) :: rest)
-                                                         | Err e -> Err e)
+                                                     let opt = jtruthy ov in
+                                                     (match goc (S p) cs with
+                                                      | Ok rest ->
+                                                        Ok ((pc, opt) :: rest)
                                                       | Err e -> Err e)
                                                    | Err e -> Err e)
                                                 | Err e -> Err e)
